@@ -639,10 +639,13 @@ class Nodes:
 
         Returns:  (Any) The de-tagged value
         """
-        evalue = value
         if isinstance(value, TaggedScalar):
-            evalue = value.value
-        return Nodes.typed_value(evalue)
+            # The value of a Tagged Scalar is always text
+            return Nodes.typed_value(value.value)
+
+        # Anything else already has the type YAML gave it; re-typing would
+        # make the Strings "1.10" and "1.1" (or "1" and 1) the same value.
+        return value
 
     @staticmethod
     def typed_value(value: str) -> Any:
